@@ -113,7 +113,7 @@ func (o jsonObject) pathIdent(pathObject jsonObject, metadata []Metadata) [8]byt
 		}
 	}
 	e, _ := NewJsonNode(id)
-	return e.hashCode([]Metadata{})
+	return e.hashCode(metadata)
 }
 
 func (k1 *setkeysMetadata) mergeKeys(k2 map[string]bool) map[string]bool {
